@@ -297,19 +297,6 @@ func VerifC02TwoBranchesConverge() {
 	c02Check(g, vchoose("stream", 2) == 1)
 }
 
-// a node reached from x both by a plain edge and as a target of a branch of x: the edge routes x's output to it
-// whatever the branch selects, so it runs (once, on x's output) also when the branch selects another target
-func VerifC02EdgeAndBranch() {
-	g := &vG{nodes: []string{"x", "n", "m", "k"}, edges: [][2]string{{START, "x"}, {"x", "n"}, {"n", END}, {"m", END}},
-		branches: []vBranch{{"x", []string{"n", "m"}}}}
-	if vchoose("second", 2) == 1 { // n has a second, independent predecessor
-		g.edges = append(g.edges, [2]string{START, "k"}, [2]string{"k", "n"})
-	} else {
-		g.edges = append(g.edges, [2]string{START, "k"}, [2]string{"k", END})
-	}
-	c02Check(g, vchoose("stream", 2) == 1)
-}
-
 func VerifC02MultiWay() {
 	// a three-way branch with END as a target, targets chained
 	g := &vG{nodes: []string{"a", "b", "c", "d"}, edges: [][2]string{{START, "a"}, {"b", "d"}, {"c", "d"}, {"d", END}},
